@@ -24,6 +24,8 @@
                             run with this walker
 -/
 import MdProofs.Lemmas.CfiWalkerSim
+import MdProofs.Lemmas.CfiWalkerArch
+import MdProofs.Lemmas.Win
 namespace MdModel.CfiWalker
 open MdModel MdModel.Gen.Regs MdModel.Regs MdModel.CfiBridge
 
@@ -352,5 +354,605 @@ theorem real_order_independent (w : CfiStackWalker) (h : Wf w) (cfa : UInt64)
     · intro e; rw [e] at hne; exact hne rfl
   exact congrArg (Option.map UInt64.toNat)
     ((Cfi.order_independent (toWalker w (fwdOfReal w)) cfa l₁ l₂ ⟨none, none, fwdOfReal w⟩ hperm hd).2.2 (utf8 s))
+
+/-! ## 3. `callee_forwarded_regs`: what the caller starts with -/
+
+/-- **`forwarded_regs_spec`** — `callee_forwarded_regs(valid)` never panics and returns EXACTLY the
+    callee-saved registers of the architecture (`CALLEE_SAVED_REGS`, machine-read from the six
+    unwinder files) that are valid in the callee — valid through ANY of their names: a frame pointer
+    the frame-pointer unwinder recorded as `r11` / `x29` is forwarded as `fp` (the repaired
+    behaviour of F28; on x86, x86-64 and MIPS the literal `which.contains(reg)` is the same thing
+    because their callee-saved registers have no aliases: table fact `fwd_literal_no_alias`). -/
+theorem forwarded_regs_spec (k : Kind) (valid : Validity) (hv : validityWf k.rawCtx valid = true) :
+    ∃ fwd, calleeForwardedRegs k valid = .ok fwd ∧
+      ∀ r, r ∈ fwd ↔ r ∈ Gen.CfiWalkerConsts.calleeSaved k.file ∧ covers k.rawCtx valid r = true := by
+  unfold calleeForwardedRegs
+  cases valid with
+  | all => exact ⟨_, rfl, fun r => by simp [covers]⟩
+  | some S =>
+    have hS := validityWf_some hv
+    simp only
+    cases hk : Gen.CfiWalkerConsts.fwdLookup k.file with
+    | literal =>
+      refine ⟨_, rfl, fun r => ?_⟩
+      rw [List.mem_filter]
+      have hna := fwd_literal_no_alias k
+      rw [hk] at hna
+      simp only [List.all_eq_true] at hna
+      constructor
+      · rintro ⟨hr, hc⟩
+        refine ⟨hr, ?_⟩
+        have hrS : r ∈ S := by simpa using hc
+        simp only [covers, List.any_eq_true]
+        exact ⟨r, hrS, sameReg_self (known_of_registers (saved_known k hr))⟩
+      · rintro ⟨hr, hc⟩
+        refine ⟨hr, ?_⟩
+        simp only [covers, List.any_eq_true] at hc
+        obtain ⟨n, hnS, hsame⟩ := hc
+        have := hna r hr n (hS n hnS)
+        rw [hsame] at this
+        have : n = r := by simpa using this
+        subst this
+        simpa using hnS
+    | isValid =>
+      have := filterO_ok (fun r => Regs.isValid k.rawCtx r (.some S)) (fun r => S.any (sameReg k.rawCtx r))
+        (Gen.CfiWalkerConsts.calleeSaved k.file)
+        (fun r hr => isValid_some_sameReg (known_of_registers (saved_known k hr)) hS)
+      refine ⟨_, this, fun r => ?_⟩
+      rw [List.mem_filter]
+      rfl
+
+/-- **the walker `from_ctx_and_args` builds**: the caller context is a clone of the callee's, the
+    caller's validity set is exactly `forwarded_regs_spec`'s set, and every forwarded register is
+    reported with the callee's raw cell value (verbatim — on MIPS in 32-bit mode the full 64-bit
+    cell, although reads of the callee are truncated to 32 bits); nothing else is valid: neither
+    the instruction pointer nor any caller-saved register is forwarded. -/
+theorem forwarded_walker (a : Args) (hv : validityWf a.kind.rawCtx a.valid = true) (w : CfiStackWalker)
+    (h : fromCtxAndArgs a = .ok (some w)) :
+    w.cpu = a.kind.cpu ∧ w.instruction = a.instruction ∧ w.calleeCtx = a.ctx ∧ w.calleeValidity = a.valid ∧
+    w.callerCtx = a.ctx ∧ w.stack = a.stack ∧
+    w.hasGrandCallee = a.grand.isSome ∧
+    (∀ r, r ∈ w.callerValidity ↔
+        r ∈ Gen.CfiWalkerConsts.calleeSaved a.kind.file ∧ covers a.kind.rawCtx a.valid r = true) ∧
+    (∀ r, callerView w r =
+        if r ∈ Gen.CfiWalkerConsts.calleeSaved a.kind.file ∧ covers a.kind.rawCtx a.valid r = true
+        then some (rawOf a.kind.rawCtx a.ctx r) else none) ∧
+    callerView w (Gen.Regs.ipName a.kind.rawCtx) = none := by
+  obtain ⟨fwd, hf, hmem⟩ := forwarded_regs_spec a.kind a.valid hv
+  unfold fromCtxAndArgs at h
+  split at h
+  · cases h
+  · split at h
+    · cases h
+    · rw [hf] at h
+      simp only [Outcome.ok.injEq, Option.some.injEq] at h
+      subst h
+      have hval : ∀ r, r ∈ toSet fwd ↔
+          r ∈ Gen.CfiWalkerConsts.calleeSaved a.kind.file ∧ covers a.kind.rawCtx a.valid r = true :=
+        fun r => (mem_toSet fwd r).trans (hmem r)
+      refine ⟨rfl, rfl, rfl, rfl, rfl, rfl, rfl, hval, ?_, ?_⟩
+      · intro r
+        unfold callerView
+        simp only
+        by_cases hr : r ∈ toSet fwd
+        · have : (toSet fwd).contains r = true := by simpa using hr
+          rw [this, if_pos ((hval r).mp hr)]; rfl
+        · have : (toSet fwd).contains r = false := by simpa using hr
+          rw [this, if_neg (fun h' => hr ((hval r).mpr h'))]; rfl
+      · unfold callerView
+        simp only
+        have : ¬ Gen.Regs.ipName a.kind.rawCtx ∈ toSet fwd := by
+          intro hin
+          have hs := ((hval _).mp hin).1
+          have := calleeSaved_canonical a.kind
+          simp only [Bool.and_eq_true, List.all_eq_true] at this
+          have := this.1 _ hs
+          simp at this
+        have : (toSet fwd).contains (Gen.Regs.ipName a.kind.rawCtx) = false := by simpa using this
+        rw [this]; rfl
+
+/-! ## 4. x86: C07's six-register interface on `CfiStackWalker<CONTEXT_X86>` -/
+
+theorem x86_registers : registers .X86 = Win.x86Regs := by decide
+
+/-- the six names C07's evaluators write are registers of CONTEXT_X86, their own canonical names;
+    the `$`-prefixed spellings `clear_stack_win_caller_registers` passes are NOT names of the
+    context type -/
+theorem x86_six_names :
+    (∀ n ∈ Win.clearNamesFixed, Cpu.canon (.ctx .X86) n = some n) ∧
+    (∀ n ∈ Win.clearNamesActual, Cpu.canon (.ctx .X86) n = none) := by
+  constructor <;> decide +kernel
+
+/-- **what `clear_caller_register("$ebx")` does today: nothing** — for each of the six names
+    `clear_stack_win_caller_registers` passes (`$eip $esp $ebp $ebx $esi $edi`) and hence for the
+    whole call, on every x86 walker: the walker is returned unchanged, so every callee-saved
+    register `callee_forwarded_regs` seeded stays valid in the caller (the known finding
+    C07-clear-dollar-names, here on the REAL walker). -/
+theorem x86_clear_dollar_noop (w : CfiStackWalker) (hx : w.cpu = .ctx .X86) :
+    (∀ n ∈ Win.clearNamesActual, w.clearCallerRegister n = .ok w) ∧
+    clearAllReal Win.clearNamesActual w = .ok w := by
+  have h1 : ∀ n ∈ Win.clearNamesActual, w.clearCallerRegister n = .ok w := by
+    intro n hn
+    rw [clearCallerRegister_eq, hx, x86_six_names.2 n hn]
+  refine ⟨h1, ?_⟩
+  have e : Win.clearNamesActual = ["$eip", "$esp", "$ebp", "$ebx", "$esi", "$edi"] := rfl
+  simp only [e, clearAllReal]
+  rw [e] at h1
+  simp only [h1 "$eip" (by simp), h1 "$esp" (by simp), h1 "$ebp" (by simp), h1 "$ebx" (by simp),
+    h1 "$esi" (by simp), h1 "$edi" (by simp)]
+
+/-- **what clearing `ebx` would do** (the names WITHOUT `$`, the proposed patch): exactly the six
+    registers become unknown in the caller, every other register keeps its value and validity, the
+    register file is untouched. -/
+theorem x86_clear_plain (w : CfiStackWalker) (hx : w.cpu = .ctx .X86) :
+    ∃ vs, clearAllReal Win.clearNamesFixed w = .ok (w.withCaller w.callerCtx vs) ∧
+      ∀ s, callerView (w.withCaller w.callerCtx vs) s =
+        if s ∈ Win.clearNamesFixed then none else callerView w s :=
+  clearAllReal_view w _ (fun n hn => by rw [hx]; exact x86_six_names.1 n hn)
+
+/-- C07's caller record and the real x86 walker agree on a register: same validity, and when valid
+    the same value -/
+def WinSim (w : CfiStackWalker) (c : Win.Caller) (s : String) : Prop :=
+  (s ∈ c.valid ↔ s ∈ w.callerValidity) ∧
+  (s ∈ c.valid → (c.vals.get s).map UInt32.toNat = some (rawOf .X86 w.callerCtx s))
+
+/-- **C07's `Caller` is the caller half of `CfiStackWalker<CONTEXT_X86>`**: `setCore` (the model of
+    `set_caller_register` / `set_cfa` / `set_ra` the C07 theorems use) succeeds exactly when the real
+    method does — the name is one of the ten registers WITHOUT `$` and the value fits 32 bits — and
+    then both sides stay related on every register; `clear` likewise (a `$`-prefixed name clears
+    nothing on either side). -/
+theorem x86_win_caller_refines (w : CfiStackWalker) (hx : w.cpu = .ctx .X86) (c : Win.Caller)
+    (hsim : ∀ s ∈ Win.x86Regs, WinSim w c s) (name : String) (v : Nat) :
+    (∃ b w', w.setCallerRegister name v = .ok (b, w') ∧ (b = (c.setCore name v).isSome) ∧
+      ∀ c', c.setCore name v = some c' → ∀ s ∈ Win.x86Regs, WinSim w' c' s) ∧
+    (∃ w', w.clearCallerRegister name = .ok w' ∧ ∀ s ∈ Win.x86Regs, WinSim w' (c.clear name) s) := by
+  have hcan : ∀ n, w.cpu.canon n = if n ∈ Win.x86Regs then some n else none := by
+    intro n
+    rw [← x86_registers, hx]
+    by_cases hn : n ∈ registers .X86
+    · rw [if_pos hn]; exact canon_register (p := .ctx .X86) hn
+    · rw [if_neg hn]
+      cases hc : Cpu.canon (.ctx .X86) n with
+      | none => rfl
+      | some r =>
+        exfalso
+        have hk : n ∈ knownNames .X86 := canon_known (p := .ctx .X86) hc
+        have : ∀ x ∈ knownNames .X86, x ∈ registers .X86 := by decide +kernel
+        exact hn (this n hk)
+  have htbl : w.cpu.tbl = .X86 := by rw [hx]; rfl
+  have hbits : ∀ x, w.cpu.fits x = decide (x ≤ U32MAX) := by
+    intro x; rw [hx]; simp only [Cpu.fits, Cpu.bits, U32MAX]
+    congr 1; apply propext
+    show x < 2 ^ 32 ↔ _
+    omega
+  constructor
+  · rw [setCallerRegister_eq, hcan]
+    unfold Win.Caller.setCore
+    by_cases hn : name ∈ Win.x86Regs
+    · simp only [hn, if_true]
+      rw [hbits]
+      by_cases hv : v ≤ U32MAX
+      · simp only [hv, decide_true, if_true]
+        refine ⟨true, _, rfl, by simp, ?_⟩
+        intro c' hc' s hs
+        simp only [Option.some.injEq] at hc'
+        subst hc'
+        obtain ⟨h1, h2⟩ := hsim s hs
+        have hview := callerView_set w (n := name) (m := name) (s := s) (by rw [hcan, if_pos hn])
+          (by rw [htbl, x86_registers]; exact hs) v
+        unfold WinSim
+        simp only
+        have hmem : s ∈ (if name ∈ c.valid then c.valid else name :: c.valid) ↔ s = name ∨ s ∈ c.valid := by
+          by_cases hnv : name ∈ c.valid
+          · simp only [hnv, if_true]
+            constructor
+            · exact .inr
+            · rintro (rfl | h); exact hnv; exact h
+          · simp [hnv]
+        have hmem' : s ∈ (w.withCaller (writeOf w.cpu.tbl w.callerCtx name v) (setInsert w.callerValidity name)).callerValidity
+            ↔ s = name ∨ s ∈ w.callerValidity := by
+          have := setInsert_contains w.callerValidity name s
+          rw [Bool.eq_iff_iff] at this
+          simpa [CfiStackWalker.withCaller] using this
+        refine ⟨?_, ?_⟩
+        · rw [hmem, hmem', h1]
+        · intro hsv
+          have hraw : rawOf .X86 (w.withCaller (writeOf w.cpu.tbl w.callerCtx name v) (setInsert w.callerValidity name)).callerCtx s
+              = if s = name then v else rawOf .X86 w.callerCtx s := by
+            have := rawOf_write w.cpu w.callerCtx (n := name) (m := name) (s := s) (by rw [hcan, if_pos hn])
+              (by rw [htbl, x86_registers]; exact hs) v
+            rw [htbl] at this
+            show rawOf .X86 (writeOf w.cpu.tbl w.callerCtx name v) s = _
+            rw [htbl]
+            exact this
+          rw [hraw]
+          by_cases hsn : s = name
+          · subst hsn
+            rw [Win.Vars.get_set_self]
+            simp only [Option.map_some, if_true, Option.some.injEq]
+            rw [UInt32.toNat_ofNat']
+            apply Nat.mod_eq_of_lt
+            simp only [U32MAX] at hv; omega
+          · rw [Win.Vars.get_set_other _ _ hsn, if_neg hsn]
+            have : s ∈ c.valid := by
+              rcases hmem.mp hsv with h | h
+              · exact absurd h hsn
+              · exact h
+            exact h2 this
+      · simp only [hv, decide_false, Bool.false_eq_true, if_false]
+        exact ⟨false, w, rfl, by simp, fun c' hc' => by cases hc'⟩
+    · simp only [hn, if_false]
+      exact ⟨false, w, rfl, by simp, fun c' hc' => by cases hc'⟩
+  · rw [clearCallerRegister_eq, hcan]
+    unfold Win.Caller.clear
+    by_cases hn : name ∈ Win.x86Regs
+    · simp only [hn, if_true]
+      refine ⟨_, rfl, ?_⟩
+      intro s hs
+      obtain ⟨h1, h2⟩ := hsim s hs
+      unfold WinSim
+      simp only [CfiStackWalker.withCaller, setRemove, List.mem_filter, ne_eq, decide_not,
+        Bool.not_eq_eq_eq_not, Bool.not_true, decide_eq_false_iff_not]
+      refine ⟨by rw [h1], fun hsv => h2 hsv.1⟩
+    · simp only [hn, if_false]
+      exact ⟨w, rfl, fun s hs => hsim s hs⟩
+
+/-! ## 4b. what `get_caller_by_cfi` makes of the walker -/
+
+theorem getAlways_raw {c : Ctx} (st : Regs.State) {n : String} (hn : n ∈ knownNames c) :
+    Regs.getAlways c st n = .ok (rawOf c st n) := by
+  obtain ⟨cell, hc, hg⟩ := Regs.getAlways_known st hn
+  rw [hg]; simp only [rawOf, hc]
+
+theorem setRegister_raw {c : Ctx} (st : Regs.State) {n : String} (hn : n ∈ knownNames c) (v : Nat) :
+    Regs.setRegister c st n v = .ok (some (writeOf c st n v)) :=
+  Cpu.setRegister_known (.ctx c) st hn v
+
+theorem getRegister_raw {c : Ctx} (st : Regs.State) {n : String} {S : List String} (hn : n ∈ knownNames c)
+    (hS : ∀ s ∈ S, s ∈ knownNames c) :
+    Regs.getRegister c st n (.some S) = .ok (if S.any (sameReg c n) then some (rawOf c st n) else none) := by
+  obtain ⟨_, cell, hc, hg⟩ := validity_honoured c st n S hn hS
+  rw [hg]; simp only [rawOf, hc]
+
+/-- one step of the ARM64 post-processing, decided -/
+theorem stripStep_eq (k : Kind) (valid : List String) (hvalid : ∀ s ∈ valid, s ∈ knownNames k.rawCtx)
+    (mask : Nat) (st : Regs.State) (r : String × Bool) (hr : r.1 ∈ knownNames k.rawCtx) :
+    stripStep k valid mask st r = .ok
+      (if r.2 || valid.any (sameReg k.rawCtx r.1) then writeOf k.rawCtx st r.1 (rawOf k.rawCtx st r.1 &&& mask)
+       else st) := by
+  unfold stripStep
+  cases hb : r.2 with
+  | true => simp only [if_true, getAlways_raw st hr, setRegister_raw st hr, Bool.true_or]
+  | false =>
+    simp only [Bool.false_eq_true, if_false, getRegister_raw st hr hvalid, Bool.false_or]
+    by_cases hc : valid.any (sameReg k.rawCtx r.1) = true
+    · simp only [hc, if_true, setRegister_raw st hr]
+    · simp only [hc, Bool.false_eq_true, if_false]
+
+/-- **the pointer-authentication strip of arm64.rs / arm64_old.rs** never panics and does exactly
+    this to the caller context the walker left: the instruction pointer is ALWAYS masked (read raw —
+    also when a rule cleared it), the link register and the frame pointer are masked when they are
+    valid in the caller (under either of their names), every other register is untouched -/
+theorem strip_spec (k : Kind) (hk : k = .arm64 ∨ k = .arm64old) (valid : List String)
+    (hvalid : ∀ s ∈ valid, s ∈ knownNames k.rawCtx) (mask : Nat) (st : Regs.State) :
+    ∃ st', stripAll k valid mask st (Gen.CfiWalkerConsts.stripRegs k.file) = .ok st' ∧
+      ∀ s ∈ registers k.rawCtx, rawOf k.rawCtx st' s =
+        if s = "pc" then rawOf k.rawCtx st "pc" &&& mask
+        else if s = "lr" ∧ valid.any (sameReg k.rawCtx "lr") = true then rawOf k.rawCtx st "lr" &&& mask
+        else if s = "fp" ∧ valid.any (sameReg k.rawCtx "fp") = true then rawOf k.rawCtx st "fp" &&& mask
+        else rawOf k.rawCtx st s := by
+  have hlist : Gen.CfiWalkerConsts.stripRegs k.file = [("pc", true), ("x30", false), ("x29", false)] := by
+    rcases hk with rfl | rfl <;> rfl
+  have hkn : "pc" ∈ knownNames k.rawCtx ∧ "x30" ∈ knownNames k.rawCtx ∧ "x29" ∈ knownNames k.rawCtx := by
+    rcases hk with rfl | rfl <;> decide +kernel
+  have hcan : k.cpu.canon "pc" = some "pc" ∧ k.cpu.canon "x30" = some "lr" ∧ k.cpu.canon "x29" = some "fp" := by
+    rcases hk with rfl | rfl <;> decide +kernel
+  have hsame : sameReg k.rawCtx "x30" = sameReg k.rawCtx "lr" ∧ sameReg k.rawCtx "x29" = sameReg k.rawCtx "fp" := by
+    have c1 := canon_cell hcan.2.1
+    have c2 := canon_cell hcan.2.2
+    exact ⟨by funext s; simp only [sameReg]; rw [show getCell k.rawCtx "x30" = getCell k.rawCtx "lr" from c1],
+           by funext s; simp only [sameReg]; rw [show getCell k.rawCtx "x29" = getCell k.rawCtx "fp" from c2]⟩
+  have hraw : ∀ st : Regs.State, rawOf k.rawCtx st "x30" = rawOf k.rawCtx st "lr" ∧
+      rawOf k.rawCtx st "x29" = rawOf k.rawCtx st "fp" := by
+    intro st
+    have c1 : getCell k.rawCtx "x30" = getCell k.rawCtx "lr" := canon_cell hcan.2.1
+    have c2 : getCell k.rawCtx "x29" = getCell k.rawCtx "fp" := canon_cell hcan.2.2
+    simp only [rawOf, c1, c2, and_self]
+  have hne : ("lr" : String) ≠ "pc" ∧ ("fp" : String) ≠ "pc" ∧ ("fp" : String) ≠ "lr" := by decide
+  rw [hlist]
+  have s1 := fun st0 => stripStep_eq k valid hvalid mask st0 ("pc", true) hkn.1
+  have s2 := fun st0 => stripStep_eq k valid hvalid mask st0 ("x30", false) hkn.2.1
+  have s3 := fun st0 => stripStep_eq k valid hvalid mask st0 ("x29", false) hkn.2.2
+  simp only [Bool.true_or, if_true, Bool.false_or] at s1 s2 s3
+  simp only [stripAll, s1, s2, s3]
+  refine ⟨_, rfl, ?_⟩
+  intro s hs
+  have hcpu : k.cpu.tbl = k.rawCtx := rfl
+  have w1 := fun (st0 : Regs.State) (v : Nat) => rawOf_write k.cpu st0 (n := "pc") (m := "pc") (s := s) hcan.1 hs v
+  have w2 := fun (st0 : Regs.State) (v : Nat) => rawOf_write k.cpu st0 (n := "x30") (m := "lr") (s := s) hcan.2.1 hs v
+  have w3 := fun (st0 : Regs.State) (v : Nat) => rawOf_write k.cpu st0 (n := "x29") (m := "fp") (s := s) hcan.2.2 hs v
+  have lrpc := rawOf_write k.cpu st (n := "pc") (m := "pc") (s := "lr") hcan.1 (canon_canon hcan.2.1).1 (rawOf k.rawCtx st "pc" &&& mask)
+  have fppc := rawOf_write k.cpu st (n := "pc") (m := "pc") (s := "fp") hcan.1 (canon_canon hcan.2.2).1 (rawOf k.rawCtx st "pc" &&& mask)
+  rw [hcpu] at w1 w2 w3 lrpc fppc
+  simp only [hne.1, hne.2.1, if_false] at lrpc fppc
+  rw [hsame.1, hsame.2]
+  by_cases hl : valid.any (sameReg k.rawCtx "lr") = true
+  · by_cases hf : valid.any (sameReg k.rawCtx "fp") = true
+    · simp only [hl, hf, if_true, and_true]
+      rw [w3, w2, w1]
+      have fplr := rawOf_write k.cpu (writeOf k.rawCtx st "pc" (rawOf k.rawCtx st "pc" &&& mask)) (n := "x30") (m := "lr")
+        (s := "fp") hcan.2.1 (canon_canon hcan.2.2).1 (rawOf k.rawCtx (writeOf k.rawCtx st "pc" (rawOf k.rawCtx st "pc" &&& mask)) "x30" &&& mask)
+      rw [hcpu] at fplr
+      simp only [hne.2.2, if_false] at fplr
+      rw [(hraw _).2, fplr, fppc, (hraw _).1, lrpc]
+      by_cases h1 : s = "pc"
+      · simp [h1]
+      · by_cases h2 : s = "lr"
+        · simp [h2]
+        · by_cases h3 : s = "fp" <;> simp [h1, h2, h3]
+    · simp only [hl, hf, if_true, and_true, and_false, Bool.false_eq_true, if_false]
+      rw [w2, w1, (hraw _).1, lrpc]
+      by_cases h1 : s = "pc"
+      · simp [h1]
+      · by_cases h2 : s = "lr" <;> simp [h1, h2]
+  · by_cases hf : valid.any (sameReg k.rawCtx "fp") = true
+    · simp only [hl, hf, if_true, and_true, and_false, Bool.false_eq_true, if_false]
+      rw [w3, w1, (hraw _).2, fppc]
+      by_cases h1 : s = "pc"
+      · simp [h1]
+      · by_cases h3 : s = "fp" <;> simp [h1, h3]
+    · simp only [hl, hf, and_false, Bool.false_eq_true, if_false]
+      rw [w1]
+
+/-- **`cfi_frame_spec`** — what `get_caller_by_cfi` returns, on every architecture. `walk_frame` is
+    reached only when the callee's stack pointer is valid and a module covers the callee's
+    instruction; it receives the walker of `forwarded_walker`; when it returns `Some`, the frame is
+    the walker's caller context after the post-processing (`strip_spec` on ARM64, nothing elsewhere)
+    with `Some(caller_validity)` as its validity — and its `instruction` is the instruction-pointer
+    cell read RAW: a stack pointer or instruction pointer a later rule cleared is still used by the
+    checks that follow, it is merely not reported as valid. -/
+theorem cfi_frame_spec (a : Args) (script : Script) (f : CfiFrame)
+    (h : getCallerByCfi a script = .ok (.frame f)) :
+    spTest a = .ok true ∧
+    ∃ w0 w st, fromCtxAndArgs a = .ok (some w0) ∧ script w0 = .ok (true, w) ∧
+      stripAll a.kind w.callerValidity (stripMask a.kind a.modules) w.callerCtx
+        (Gen.CfiWalkerConsts.stripRegs a.kind.file) = .ok st ∧
+      (Gen.CfiWalkerConsts.stripRegs a.kind.file = [] → st = w.callerCtx) ∧
+      f.ctx = st ∧ f.valid = w.callerValidity ∧
+      Regs.instructionPointer a.kind.rawCtx st = .ok f.instruction := by
+  unfold getCallerByCfi at h
+  split at h
+  · cases h
+  · cases h
+  · rename_i hsp
+    refine ⟨hsp, ?_⟩
+    split at h
+    · cases h
+    · cases h
+    · rename_i w0 hw0
+      split at h
+      · cases h
+      · cases h
+      · rename_i w hs
+        split at h
+        · cases h
+        · rename_i st hst
+          split at h
+          · cases h
+          · rename_i ip hip
+            simp only [Outcome.ok.injEq, CfiResult.frame.injEq] at h
+            subst h
+            refine ⟨w0, w, st, hw0, hs, hst, ?_, rfl, rfl, hip⟩
+            intro hnil
+            rw [hnil] at hst
+            simp only [stripAll, Outcome.ok.injEq] at hst
+            exact hst.symm
+
+/-! ## 5. the stack-walk model's CFI step runs THIS walker -/
+
+/-- **`walkcfi_uses_cfiwalker`.** The walker model of C03/C04/C05 (`MdModel.Walk.Cfi`: `CfiIn` /
+    `CfiOut`, hand-written register tables) has the `CfiStackWalker` built in. For every
+    architecture, callee context (validity set naming registers of the type, 64-bit values), stack
+    memory, caller state `o0`, lookup address and module base, let `cw = cwOf x o0 instr modBase` be
+    the REAL walker (`MdModel.CfiWalker`, C18's translated tables) of that frame and
+    `W = toWalker cw (fwdOf x.arch o0)` its C06 record. Then
+    1. `W` is related to the walker-model frame by the bridge's simulation relation, and the two
+       initial caller states are related at every register — so every theorem of
+       `MdProofs.C06Walk` holds with the real walker's record in the place of `walkerOf`;
+    2. `SymbolFile::walk_frame` of the walker model (`walkFrameCfi`, through its own range table) is
+       C06's `walkFrame` run with the real walker's record (`walkFrame_eq_c06` at `W`);
+    3. `walk_with_stack_cfi` of the walker model and `walkCfiReal cw` — the same rule lines on the
+       real walker — fail together and, when they succeed, report every register of the context type
+       alike: the same value, or unknown on both sides. -/
+theorem walkcfi_uses_cfiwalker (x : Walk.CfiIn) (o0 : Walk.CfiOut) (instr modBase : Nat)
+    (hvalid : ValidWf x.arch x.callee) (h64 : ∀ n v, x.reg n = some v → v < 2 ^ 64)
+    (ho64 : ∀ s, o0.valid.contains s = true → rawC x.arch o0.ctx s < 2 ^ 64) :
+    let cw := cwOf x o0 instr modBase
+    let W := toWalker cw (fwdOf x.arch o0)
+    (WalkerSim x W ∧ W.instr = instr ∧ ∀ s, OutSimAt x.arch o0 W.caller0 s) ∧
+    (∀ (sf : Walk.SymFile) (i : Nat) (rec : Walk.CfiRec), ¬ instr < modBase →
+        RangeMap.get (Walk.cfiTable sf) (instr - modBase) = some i → sf.cfis[i]? = some rec →
+        match Cfi.walkFrame (recOf rec) modBase W with
+        | none => Walk.walkFrameCfi sf (Walk.cfiTable sf) modBase x o0 instr = none
+        | some _ => ∃ o, Walk.walkFrameCfi sf (Walk.cfiTable sf) modBase x o0 instr = some o) ∧
+    (∀ (init : String) (adds : List String),
+        match Walk.walkCfi x o0 init adds with
+        | none => ∃ w', walkCfiReal cw ((init :: adds).map utf8) = .ok (false, w')
+        | some o => ∃ w', walkCfiReal cw ((init :: adds).map utf8) = .ok (true, w') ∧
+            ∀ s ∈ registers cw.cpu.tbl, viewW x.arch o s = callerView w' s) := by
+  intro cw W
+  have hsim : WalkerSim x W := cwOf_sim x o0 instr modBase _ hvalid h64
+  have hout : ∀ s, OutSimAt x.arch o0 W.caller0 s := fun s => fwdOf_related x.arch o0 s (ho64 s)
+  refine ⟨⟨hsim, rfl, hout⟩, ?_, ?_⟩
+  · intro sf i rec hlt hget hrec
+    have hb := (walkFrame_eq_c06 sf modBase x o0 W hsim).2.2 i rec hlt hget hrec
+    cases hc : Cfi.walkFrame (recOf rec) modBase W with
+    | none => rw [hc] at hb; exact hb
+    | some c =>
+      rw [hc] at hb
+      obtain ⟨_, _, o, _, _, _, ho, _⟩ := hb
+      exact ⟨o, ho⟩
+  · intro init adds
+    have hb := walkCfi_eq_c06 x W hsim o0 init adds
+    have hwf : validityWf cw.cpu.tbl cw.calleeValidity = true := cwOf_validityWf x o0 instr modBase hvalid
+    have hr := walkCfiReal_bridge cw (fwdOf x.arch o0) hwf rfl ((init :: adds).map utf8)
+    cases hc : Cfi.walkCfi W ((init :: adds).map utf8) with
+    | none =>
+      rw [hc] at hb hr
+      rw [hb]
+      obtain ⟨st, vs, e⟩ := hr
+      exact ⟨_, e⟩
+    | some c =>
+      rw [hc] at hb hr
+      obtain ⟨cfa, ra, o, c1, h1, h2, ho, hc1, _, _, hsim1⟩ := hb
+      obtain ⟨cfa', ra', st, vs, c2, h1', h2', hw, hc2, _, _, hsim2⟩ := hr
+      rw [h1] at h1'; cases h1'
+      rw [h2] at h2'; cases h2'
+      rw [ho]
+      refine ⟨_, hw, ?_⟩
+      intro s hs
+      -- both seeded C06 runs are the same run
+      have hseed : toWalker cw (seededFwd cw (fwdOf x.arch o0) cfa ra) = seeded x.arch W cfa ra := by
+        unfold seeded seededFwd seedFwd
+        rw [arch_spName, arch_ipName]
+        rfl
+      rw [hseed] at hc2
+      rw [hc1] at hc2
+      cases hc2
+      have i1 : OutSimAt x.arch o c1 s := hsim1 s (.inr (.inr (hout s)))
+      have i2 : CallerSim (cw.withCaller st vs) c1 s := by
+        apply hsim2 s hs
+        right; right
+        unfold CallerSim
+        rw [callerView_cwOf x o0 instr modBase hs]
+        exact hout s
+      unfold OutSimAt at i1
+      unfold CallerSim at i2
+      rw [← i1, i2]
+
+/-! ## non-vacuity: concrete instances of every hypothesis set, both sides computed -/
+
+/-- ARM64 callee: `sp = 0x1000`, `pc = 0x400010`, `x29 = 0x1010`, `x19 = 7`; the validity set holds the
+    frame pointer under its ALIAS `x29`; 32 bytes of stack with a saved frame pointer (`0x2040` at
+    `0x1010`) and a return address (`0x401234` at `0x1018`) -/
+def exSt : Regs.State :=
+  (((Regs.State.zero.write ⟨"sp", none⟩ 0x1000).write ⟨"pc", none⟩ 0x400010).write ⟨"iregs", some 29⟩ 0x1010).write
+    ⟨"iregs", some 19⟩ 7
+
+def exArgs : Args :=
+  { kind := .arm64, ctx := exSt, valid := .some ["sp", "pc", "x29", "x19"], instruction := 0x400010,
+    isContext := true, grand := none, modules := [{ base := 0x400000, size := 0x10000, name := "m" }],
+    stack := { base := 0x1000, bigEndian := false,
+               bytes := [0,0,0,0,0,0,0,0, 0,0,0,0,0,0,0,0, 0x40,0x20,0,0,0,0,0,0, 0x34,0x12,0x40,0,0,0,0,0] } }
+
+/-- the walker `from_ctx_and_args` builds for it -/
+def exW : CfiStackWalker :=
+  { cpu := .ctx .ARM64, instruction := 0x400010, hasGrandCallee := false, grandCalleeParameterSize := 0,
+    calleeCtx := exSt, calleeValidity := .some ["sp", "pc", "x29", "x19"],
+    callerCtx := exSt, callerValidity := ["x19", "fp"], moduleBase := 0x400000, stack := exArgs.stack }
+
+/-- the hypotheses of `walker_refines_c06` / `real_*` hold of it -/
+theorem exW_wf : Wf exW := ⟨by decide +kernel, rfl⟩
+
+-- `forwarded_regs_spec` / `forwarded_walker`: `fp` is forwarded although the set says `x29` (F28)
+example : validityWf exArgs.kind.rawCtx exArgs.valid = true := by decide +kernel
+example : calleeForwardedRegs .arm64 exArgs.valid = .ok ["x19", "fp"] := by decide +kernel
+example : (match fromCtxAndArgs exArgs with
+           | .ok (some w) => some (w.callerValidity, callerView w "fp", callerView w "x19", callerView w "x20")
+           | _ => none) = some (["x19", "fp"], some 0x1010, some 7, none) := by decide +kernel
+-- x86: the literal test; a register that is valid but not callee-saved is not forwarded
+example : calleeForwardedRegs .x86 (.some ["esp", "eax", "esi"]) = .ok ["esi"] := by decide +kernel
+
+-- reads through aliases, validity honoured (both names of the frame pointer, an invalid register,
+-- an unknown name, a `$`-prefixed spelling)
+example : exW.getCalleeRegister "fp" = .ok (some 0x1010) ∧ exW.getCalleeRegister "x29" = .ok (some 0x1010) ∧
+    exW.getCalleeRegister "x20" = .ok none ∧ exW.getCalleeRegister "nosuch" = .ok none ∧
+    exW.getCalleeRegister "$sp" = .ok none := by decide +kernel
+
+/-- `walk_with_stack_cfi` on the real walker: the CFA from `sp`, the return address from the stack,
+    the frame pointer restored through its ALIAS `x29`, the forwarded `x19` cleared by `.undef` -/
+def exRule : Cfi.Bytes := ".cfa: sp 32 + .ra: .cfa 8 - ^ x29: .cfa 16 - ^ x19: .undef".toUTF8.data.toList
+
+example : (match walkCfiReal exW [exRule] with
+           | .ok (b, w') => some (b, callerView w' "sp", callerView w' "pc", callerView w' "fp", callerView w' "x19")
+           | .panic _ => none) = some (true, some 0x1020, some 0x401234, some 0x2040, none) := by decide +kernel
+
+/-- the same through `real_reg_set_or_unknown`: the hypotheses are satisfiable and the conclusion is
+    about a walk that succeeds -/
+example : ∃ w', walkCfiReal exW [exRule] = .ok (true, w') ∧ callerView w' "fp" = some 0x2040 := by
+  obtain ⟨b, st, vs, hw⟩ := real_no_panic exW exW_wf [exRule]
+  have hb : (match walkCfiReal exW [exRule] with | .ok (b, _) => b | .panic _ => false) = true := by decide +kernel
+  rw [hw] at hb
+  simp only at hb
+  subst hb
+  refine ⟨_, hw, ?_⟩
+  have hv : (match walkCfiReal exW [exRule] with | .ok (_, w') => callerView w' "fp" | .panic _ => none) = some 0x2040 := by
+    decide +kernel
+  rw [hw] at hv
+  exact hv
+
+/-- a 32-bit walker: a rule whose value does not fit the register CLEARS the forwarded register
+    (F8b / fix 15b778b), `$`-prefixed labels as x86 symbol files write them -/
+def exX86 : CfiStackWalker :=
+  { cpu := .ctx .X86, instruction := 0x400010, hasGrandCallee := false, grandCalleeParameterSize := 0,
+    calleeCtx := (Regs.State.zero.write ⟨"esp", none⟩ 0x1000).write ⟨"esi", none⟩ 5,
+    calleeValidity := .all,
+    callerCtx := (Regs.State.zero.write ⟨"esp", none⟩ 0x1000).write ⟨"esi", none⟩ 5,
+    callerValidity := ["ebp", "ebx", "edi", "esi"], moduleBase := 0x400000,
+    stack := { base := 0x1000, bytes := [], bigEndian := false } }
+
+example : Wf exX86 := ⟨rfl, rfl⟩
+
+example : (match walkCfiReal exX86 [".cfa: $esp 24 + .ra: 1073750224 $esi: 4294967296".toUTF8.data.toList] with
+           | .ok (b, w') => some (b, callerView w' "esp", callerView w' "eip", callerView w' "esi", callerView w' "edi")
+           | .panic _ => none) = some (true, some 0x1018, some 1073750224, none, some 0) := by decide +kernel
+
+-- C07 on the real x86 walker: `$ebx` clears nothing, `ebx` clears `ebx`
+example : (match exX86.clearCallerRegister "$ebx" with | .ok w' => w'.callerValidity | .panic _ => []) =
+    ["ebp", "ebx", "edi", "esi"] := by decide +kernel
+example : (match exX86.clearCallerRegister "ebx" with | .ok w' => w'.callerValidity | .panic _ => []) =
+    ["ebp", "edi", "esi"] := by decide +kernel
+example : ∀ s ∈ Win.x86Regs, WinSim exX86 (Win.Caller.init [("esp", 0x1000), ("esi", 5), ("ebp", 0), ("ebx", 0), ("edi", 0)]
+    (fun _ => true)) s := by
+  intro s hs
+  simp only [Win.x86Regs, List.mem_cons, List.not_mem_nil, or_false] at hs
+  rcases hs with rfl | rfl | rfl | rfl | rfl | rfl | rfl | rfl | rfl | rfl <;>
+    (constructor <;> decide +kernel)
+
+-- `cfi_frame_spec` / `strip_spec`: the post-processing and the end of `get_caller_frame` on the ARM64
+-- frame, with a return address that carries pointer-authentication bits (`0xff…401234`, written as the
+-- negative `i64` literal the rule language has for it): the frame's
+-- pc is masked to 47 bits (`ptr_auth_strip` without modules above 2^47), `instruction` = pc − 4
+-- (the module table of `from_ctx_and_args` is C08's range map, whose sort does not reduce in the
+-- kernel: the walker `exW` is the one it builds — see the `fromCtxAndArgs` example above for its fields)
+example : (match walkCfiReal exW [".cfa: sp 32 + .ra: -72057594033728972 x29: .cfa 16 - ^".toUTF8.data.toList] with
+           | .ok (true, w) =>
+             (match stripAll .arm64 w.callerValidity (2 ^ 47 - 1) w.callerCtx (Gen.CfiWalkerConsts.stripRegs .arm64) with
+              | .ok st =>
+                (match frameTail exArgs { ctx := st, valid := w.callerValidity, instruction := 0 } with
+                 | .ok (some f') => some (f'.instruction, f'.valid, rawOf .ARM64 f'.ctx "pc", rawOf .ARM64 f'.ctx "fp")
+                 | _ => none)
+              | _ => none)
+           | _ => none) = some (0x401230, ["x19", "fp", "sp", "pc"], 0x401234, 0x2040) := by decide +kernel
+-- the stack-pointer test: without `sp` in the validity set `walk_frame` is never called
+example : spTest exArgs = .ok true ∧ spTest { exArgs with valid := .some ["pc", "x29"] } = .ok false := by
+  decide +kernel
+-- the end of `get_caller_frame`: a nullish instruction pointer / a stack pointer that does not grow
+example : (match frameTail exArgs { ctx := exSt, valid := [], instruction := 0 } with
+           | .ok (some f) => some f.instruction | _ => none) = some 0x40000c ∧
+    (match frameTail { exArgs with isContext := false } { ctx := exSt, valid := [], instruction := 0 } with
+     | .ok none => true | _ => false) = true := by decide +kernel
+
+-- `real_order_independent`: two rules for different registers, processed in either order
+example : ∀ x ∈ [(utf8 "x19", [[0x31]]), (utf8 "x29", [Cfi.tCfa])], ∀ y ∈ [(utf8 "x19", [[0x31]]), (utf8 "x29", [Cfi.tCfa])],
+    labelReg exW x.1 = labelReg exW y.1 → labelReg exW x.1 ≠ none → x = y := by decide +kernel
+
+-- `walkcfi_uses_cfiwalker` on the concrete pair of `MdProofs.C06Walk`
+example : ValidWf exIn.arch exIn.callee ∧ (∀ n v, exIn.reg n = some v → v < 2 ^ 64) ∧
+    (∀ s, exOut.valid.contains s = true → rawC exIn.arch exOut.ctx s < 2 ^ 64) := by
+  refine ⟨trivial, exIn_reg64, ?_⟩
+  have : ∀ s ∈ exOut.valid, rawC exIn.arch exOut.ctx s < 2 ^ 64 := by decide
+  intro s hs
+  exact this s (by simpa using hs)
 
 end MdModel.CfiWalker
